@@ -531,7 +531,7 @@ class CtlWriter:
             write_line('{} {}{} {}'.format(ctl, addr_str, lengths, comment).rstrip())
         else:
             # Remove redundant trailing blank lines
-            min_comments = min(len(instructions) - 1, 1)
+            min_comments = min(max(len(instructions), len(comment)) - 1, 1)
             while len(comment) > min_comments and comment[-1] == ['']:
                 comment.pop()
             self._write_lines(comment, ctl, addr_str + lengths, True)
